@@ -17,7 +17,9 @@ STEPS = (1, 30, 60, 600, 3600, 21600, 86400, 86400 * 3, 86400 * 9, 86400 * 31)
 # tables
 # --------------------------------------------------------------------------
 def gen_n(rng, max_n=40):
-    n = rng.weighted([(0, 4), (1, 5), (2, 5), (3, 6), ("s", 55), ("l", 25)])
+    n = rng.weighted([(0, 4), (1, 5), (2, 5), (3, 6), ("s", 55), ("l", 25), ("xl", 1 if max_n >= 24 else 0)])
+    if n == "xl":
+        return rng.randint(150, 400)  # now and then a few hundred rows: thresholds, chunk sizes, numba paths
     if n == "s":
         return rng.randint(4, min(12, max_n))
     if n == "l":
@@ -522,6 +524,7 @@ def gen_config(rng, tbl, max_ctx=4, max_tests=3, window_layout=None, fault_kinds
         "carrier": carrier,
         "layout": "streams" if len(contexts) == 1 and rng.chance(0.4) else "contexts",
         "share_document": rng.chance(0.3),
+        "param_form": rng.weighted([("plain", 6), ("tuples", 2), ("numpy", 2)]) if carrier in ("dict", "odict") else "plain",
         "build": rng.weighted([("direct", 7), ("from_calls", 1), ("from_config", 1), ("add_calls", 1), ("add_config", 1)]),
     }
 
